@@ -11,8 +11,11 @@ import (
 	"os"
 	"os/exec"
 	"path/filepath"
+	"regexp"
 	"sort"
+	"strconv"
 	"strings"
+	"syscall"
 	"time"
 
 	dto "github.com/prometheus/client_model/go"
@@ -45,13 +48,27 @@ func onoff(flag string, on byte) string {
 	return "--no-" + flag
 }
 
-func internalFamily(n string) bool {
-	for _, p := range []string{"go_", "process_", "statsd_exporter_", "promhttp_", "statsd_metric_mapper_", "zz_q_"} {
-		if strings.HasPrefix(n, p) {
-			return true
+// the exporter's own families: the metric names its source declares (read from /repo when the harness starts) and
+// whatever the endpoint exposes before the first line is sent (Go runtime, process, promhttp, build info); a statsd
+// metric that merely starts like one of them (statsd_exporter_events_total___v) is not internal
+var internalNames = func() map[string]bool {
+	m := map[string]bool{}
+	re := regexp.MustCompile(`Name:\s*"([a-z_]+)"`)
+	filepath.Walk("/repo", func(p string, fi os.FileInfo, err error) error {
+		if err != nil || fi.IsDir() || !strings.HasSuffix(p, ".go") || strings.HasSuffix(p, "_test.go") || strings.Contains(p, "/vendor/") {
+			return nil
 		}
-	}
-	return false
+		b, _ := os.ReadFile(p)
+		for _, g := range re.FindAllStringSubmatch(string(b), -1) {
+			m[g[1]] = true
+		}
+		return nil
+	})
+	return m
+}()
+
+func internalFamily(n string) bool {
+	return internalNames[n] || strings.HasPrefix(n, "zz_q_")
 }
 
 func scrapeHTTP(url string) (map[string]*dto.MetricFamily, int, error) {
@@ -93,11 +110,16 @@ func execBinary(op string) (res string) {
 		return "no-binary (VERIF_EXPORTER_BIN unset)"
 	}
 	f := strings.Fields(op)
-	if len(f) < 5 || f[0] != "pipe" || f[2] != "0" || f[3] != "|" {
+	if len(f) < 5 || f[0] != "pipe" {
 		return "bad-op"
 	}
 	flags := f[1]
-	subs := splitToks(f[4:], ";")
+	// pre-registered families named in the op (C03 stream) are the binary's own collectors: nothing to set up
+	npre, _ := strconv.Atoi(f[2])
+	if len(f) < 4+3*npre || f[3+3*npre] != "|" {
+		return "bad-op"
+	}
+	subs := splitToks(f[4+3*npre:], ";")
 	if len(subs) == 0 || subs[0][0] != "load" {
 		return "bad-op"
 	}
@@ -108,17 +130,37 @@ func execBinary(op string) (res string) {
 	cfgFile := filepath.Join(dir, "mapping.yml")
 	must(os.WriteFile(cfgFile, []byte(cfg.yaml()), 0o644))
 	web, udp, tcpPort := freePort("tcp"), freePort("udp"), freePort("tcp")
-	// transport of this history: UDP datagrams or one TCP connection (derived from the op text, so replay is deterministic)
+	// deployment of this history, derived from the op text so that a replay is deterministic: transport (UDP datagrams,
+	// one TCP connection, Unixgram datagrams), reload trigger (POST /-/reload or SIGHUP), mapping cache flags, flush
+	// threshold, and (one history in four) a relay target on loopback
 	hh := fnv.New32a()
 	hh.Write([]byte(op))
-	useTCP := hh.Sum32()%2 == 1
-	cmd := exec.Command(exporterBin,
+	hv := hh.Sum32()
+	transport := []string{"udp", "tcp", "unixgram"}[hv%3]
+	useTCP := transport == "tcp"
+	sighup := (hv>>4)%2 == 1
+	cacheFlags := [][]string{{}, {"--statsd.cache-type=random", "--statsd.cache-size=2"}, {"--statsd.cache-size=1"}, {"--statsd.cache-type=random"}}[(hv>>5)%4]
+	flushThr := []string{"1000", "1", "3"}[(hv>>7)%3]
+	withRelay := (hv>>9)%4 == 0
+	unixPath := filepath.Join(dir, "s.sock")
+	args := []string{
 		fmt.Sprintf("--web.listen-address=127.0.0.1:%d", web),
 		fmt.Sprintf("--statsd.listen-udp=127.0.0.1:%d", udp),
-		fmt.Sprintf("--statsd.listen-tcp=127.0.0.1:%d", tcpPort), "--statsd.mapping-config="+cfgFile,
-		"--statsd.event-flush-interval=2ms", "--log.level=error", "--web.enable-lifecycle",
+		fmt.Sprintf("--statsd.listen-tcp=127.0.0.1:%d", tcpPort), "--statsd.mapping-config=" + cfgFile,
+		"--statsd.listen-unixgram=" + unixPath,
+		"--statsd.event-flush-interval=2ms", "--statsd.event-flush-threshold=" + flushThr, "--log.level=error", "--web.enable-lifecycle",
 		onoff("statsd.parse-dogstatsd-tags", flags[0]), onoff("statsd.parse-influxdb-tags", flags[1]),
-		onoff("statsd.parse-librato-tags", flags[2]), onoff("statsd.parse-signalfx-tags", flags[3]))
+		onoff("statsd.parse-librato-tags", flags[2]), onoff("statsd.parse-signalfx-tags", flags[3])}
+	args = append(args, cacheFlags...)
+	var relayConn *net.UDPConn
+	if withRelay {
+		relayConn, err = net.ListenUDP("udp", &net.UDPAddr{IP: net.IPv4(127, 0, 0, 1)})
+		must(err)
+		relayConn.SetReadBuffer(4 << 20)
+		defer relayConn.Close()
+		args = append(args, "--statsd.relay.address="+relayConn.LocalAddr().String())
+	}
+	cmd := exec.Command(exporterBin, args...)
 	cmd.Stdout, cmd.Stderr = io.Discard, io.Discard
 	if err := cmd.Start(); err != nil {
 		return "start-failed " + err.Error()
@@ -138,8 +180,11 @@ func execBinary(op string) (res string) {
 			return "err ; binary exited at start-up"
 		default:
 		}
-		if _, code, err := scrapeHTTP(url); err == nil && code == 200 {
+		if m0, code, err := scrapeHTTP(url); err == nil && code == 200 {
 			ready = true
+			for n := range m0 {
+				internalNames[n] = true
+			}
 		} else {
 			time.Sleep(5 * time.Millisecond)
 		}
@@ -148,14 +193,21 @@ func execBinary(op string) (res string) {
 		return "not-ready"
 	}
 	var conn net.Conn
-	if useTCP {
+	switch transport {
+	case "tcp":
 		conn, err = net.DialTCP("tcp", nil, &net.TCPAddr{IP: net.IPv4(127, 0, 0, 1), Port: tcpPort})
-	} else {
+	case "udp":
 		conn, err = net.DialUDP("udp", nil, &net.UDPAddr{IP: net.IPv4(127, 0, 0, 1), Port: udp})
+	default:
+		conn, err = net.DialUnix("unixgram", nil, &net.UnixAddr{Name: unixPath, Net: "unixgram"})
 	}
-	must(err)
+	if err != nil {
+		return "dial-failed " + err.Error()
+	}
 	defer conn.Close()
+	var relayWant strings.Builder
 	sendLine := func(l string) {
+		relayWant.WriteString(l + "\n")
 		if useTCP {
 			conn.Write([]byte(l + "\n"))
 		} else {
@@ -205,14 +257,33 @@ func execBinary(op string) (res string) {
 			c2 := decodeCfg(&rd{t: sub[1:]})
 			must(os.WriteFile(cfgFile, []byte(c2.yaml()), 0o644))
 			before, _, _ := scrapeHTTP(url)
-			resp, err := http.Post(fmt.Sprintf("http://127.0.0.1:%d/-/reload", web), "text/plain", nil)
-			if err != nil {
-				outs = append(outs, "reload-failed")
-				continue
+			total := func(m map[string]*dto.MetricFamily) int {
+				return sumFamily(m["statsd_exporter_config_reloads_total"], "", "")
 			}
-			io.Copy(io.Discard, resp.Body)
-			resp.Body.Close()
-			after, _, _ := scrapeHTTP(url)
+			var after map[string]*dto.MetricFamily
+			if sighup { // the signal handler reloads asynchronously: wait for the reload counter to move
+				cmd.Process.Signal(syscall.SIGHUP)
+				for i := 0; i < 1500; i++ {
+					after, _, _ = scrapeHTTP(url)
+					if total(after) > total(before) {
+						break
+					}
+					time.Sleep(2 * time.Millisecond)
+				}
+				if total(after) <= total(before) {
+					outs = append(outs, "reload-failed (no reaction to SIGHUP)")
+					continue
+				}
+			} else {
+				resp, err := http.Post(fmt.Sprintf("http://127.0.0.1:%d/-/reload", web), "text/plain", nil)
+				if err != nil {
+					outs = append(outs, "reload-failed")
+					continue
+				}
+				io.Copy(io.Discard, resp.Body)
+				resp.Body.Close()
+				after, _, _ = scrapeHTTP(url)
+			}
 			f0 := sumFamily(before["statsd_exporter_config_reloads_total"], "outcome", "failure")
 			f1 := sumFamily(after["statsd_exporter_config_reloads_total"], "outcome", "failure")
 			if f1 > f0 {
@@ -258,12 +329,30 @@ func execBinary(op string) (res string) {
 			outs = append(outs, "bad-op")
 		}
 	}
-	return strings.Join(outs, " ; ") + "\t"
+	if withRelay {
+		// SE.Props.C18.datagram_lines_relayed_once / C17: at the latest one tick (1s) after the last line the target has
+		// received every non-empty line once, in order, newline-terminated
+		want := relayWant.String()
+		var got strings.Builder
+		buf := make([]byte, 65536)
+		deadline := time.Now().Add(2500 * time.Millisecond)
+		for got.Len() < len(want) && time.Now().Before(deadline) {
+			relayConn.SetReadDeadline(time.Now().Add(300 * time.Millisecond))
+			n, _, err := relayConn.ReadFromUDP(buf)
+			if err == nil {
+				got.Write(buf[:n])
+			}
+		}
+		if got.String() != want {
+			outs = append(outs, fmt.Sprintf("relay-mismatch got=%s want=%s", enc(got.String()), enc(want)))
+		}
+	}
+	return strings.Join(outs, " ; ") + fmt.Sprintf("\ttransport=%s sighup=%v relay=%v cache=%v thr=%s", transport, sighup, withRelay, cacheFlags, flushThr)
 }
 
 func init() {
 	c := &Component{Name: "binary", Exec: execBinary,
-		Rule: "the BUILT binary (main.go wiring: flags, UDP listener, packet queue, event queue, exporter, /metrics) started per history with a generated mapping file and one of the 16 parser-flag combinations; 4-10 well-formed lines in all tag syntaxes sent over a real UDP socket or one TCP connection (alternating), occasional valid/invalid reloads through /-/reload, scraped over HTTP (a sentinel line marks the end of processing), the parsed exposition compared with the pipeline model's scrape. Non-trivial: the history has tags or >= 2 distinct series; distinct by op text."}
+		Rule: "the BUILT binary (main.go wiring: flags, UDP listener, packet queue, event queue, exporter, /metrics) started per history with a generated mapping file and one of the 16 parser-flag combinations; 4-10 well-formed lines in all tag syntaxes sent over a real UDP socket, one TCP connection or a Unixgram socket (by hash of the op), mapping cache flags (lru/random, sizes 1, 2, 1000), flush thresholds 1/3/1000, occasional valid/invalid reloads through /-/reload or SIGHUP, one history in four with --statsd.relay.address pointing at a loopback socket whose received bytes must be exactly the lines sent, scraped over HTTP (a sentinel line marks the end of processing), the parsed exposition compared with the pipeline model's scrape. Non-trivial: the history has tags or >= 2 distinct series; distinct by op text."}
 	c.Gen = func(r *rand.Rand, tier string, emit Emit) {
 		n := 48
 		if tier == "thorough" {
@@ -287,6 +376,19 @@ func init() {
 			h.scrape()
 			emit(h.op(), true, "flags_"+h.flags)
 		}
+	}
+	register(c)
+}
+
+func init() {
+	c := &Component{Name: "binary_c03", Exec: execBinary,
+		Rule: "the C03 histories (names with _sum/_count/_bucket suffixes, names of the exporter's own collectors statsd_exporter_events_total and go_goroutines, all-tag names, reserved and exotic tag keys, two rules giving one name different help) sent to the BUILT binary over UDP/TCP/Unixgram and scraped over HTTP after every line: the text exposition is parsed back (expfmt) and compared with the model's scrape; HTTP 500 must coincide with the model's Gather failure. Non-trivial as in pipe_c03; distinct by op text."}
+	c.Gen = func(r *rand.Rand, tier string, emit Emit) {
+		n := 40
+		if tier == "thorough" {
+			n = 600
+		}
+		genC03(r, n, emit)
 	}
 	register(c)
 }
